@@ -15,6 +15,7 @@ import shutil
 
 import numpy
 
+from .probes import GenBase
 from . import common, sampler_runs as sr
 from .common import Violation, col
 
@@ -73,13 +74,16 @@ def logged_classes():
                 return out
 
             def generate_momentum(self):
-                class Tap:
+                class Tap(GenBase):
                     def __init__(s, rng):
                         s.rng, s.z = rng, None
 
-                    def normal(s, *a, **k):
-                        s.z = s.rng.normal(*a, **k)
+                    def _z(s, shape):
+                        s.z = s.rng.standard_normal(shape) if hasattr(s.rng, "standard_normal") else s.rng.normal(size=shape)
                         return s.z
+
+                    def _u(s, shape, low, high):
+                        return s.rng.uniform(low, high, shape)
                 tap = Tap(self.rng)
                 real = self.rng
                 self.rng = tap
@@ -102,12 +106,12 @@ def logged_classes():
 
 def momentum_law_defect(mass, d):
     """None if the momentum refresh is Gibbs for the kinetic energy of the acceptance test, else (A A^T) M^-1"""
-    class UnitRng:
+    class UnitRng(GenBase):
         def __init__(self, k):
             self.k = k
 
-        def normal(self, loc=0.0, scale=1.0, size=None):
-            z = numpy.zeros(size if size is not None else (d, 1))
+        def _z(self, shape):
+            z = numpy.zeros(shape if shape is not None else (d, 1))
             z.reshape(-1)[self.k] = 1.0
             return z
     saved = getattr(mass, "rng", None)
